@@ -26,7 +26,15 @@ def make_files(wd):
         lead = b1[:5] + ref.ci_enc(h1.hash_type) + ref.ci_enc(h1.header_length + big) + h1.header_digest
         buf = lead + b1[h1.lead_size:]
         p = os.path.join(wd, "pinwrap%d.zck" % (big >> 32)); open(p, "wb").write(buf); files.append((p, buf, False))
-    return files
+    # candidates that end inside the lead (an empty file, an interrupted download, something that is not a zchunk file)
+    # and exactly after it: pins are taken from the complete file, the lead itself is not there to be accepted
+    for fi in (1, 2):
+        full = files[fi][1]; hf = ref.parse_header(full)
+        for n in sorted({0, 1, 5, 6, 13, 24, 25, 26, hf.lead_size - 1, hf.lead_size}):
+            if n > hf.lead_size:
+                continue
+            p = os.path.join(wd, "pincut%d-%d.zck" % (fi, n)); open(p, "wb").write(full[:n]); files.append((p, full[:n], False, full))
+    return [f if len(f) == 4 else f + (f[1],) for f in files]
 
 
 def digest_strings(kind, fdig, size, rnd, sweep=None):
@@ -55,9 +63,10 @@ def digest_strings(kind, fdig, size, rnd, sweep=None):
     return out
 
 
-def concretise(hist, path, buf, sealed, rnd, expand):
-    """abstract history -> list of (script lines, enriched events template) ; may expand to several"""
-    h = ref.parse_header(buf)
+def concretise(hist, path, buf, sealed, rnd, expand, refbuf=None):
+    """abstract history -> list of (script lines, enriched events template) ; may expand to several.
+    refbuf: the complete file the pinned values are taken from (buf itself unless buf is a truncated candidate)"""
+    h = ref.parse_header(refbuf if refbuf is not None else buf)
     ft = h.hash_type; fdig = h.header_digest; flen = h.hdr_total
     variants = [[]]
     # each variant: list of dict(op=..., args...)
@@ -114,9 +123,10 @@ def script_and_template(cid, path, steps):
     return "\n".join(lines) + "\n"
 
 
-def enrich(evs, steps, buf, sealed):
+def enrich(evs, steps, buf, sealed, refbuf=None):
     """driver events + reference facts -> spec-level events"""
-    h = ref.parse_header(buf)
+    h = ref.parse_header(refbuf if refbuf is not None else buf)
+    lead_ok = ref.parse_header(buf).lead_size is not None         # the candidate's own bytes contain a complete lead
     ft = h.hash_type
     out = [{"op": "reset"}]
     calls = [e for e in evs if e["op"] in ("ioption", "soption", "validate_lead", "read_lead", "read_header", "clear_error")]
@@ -141,11 +151,11 @@ def enrich(evs, steps, buf, sealed):
         elif s["op"] == "setlen":
             out.append({"op": "setlen", "l": "file" if s["len"] == h.hdr_total else "other", "ret": e["ret"], "es": es})
         elif s["op"] == "validate_lead":
-            out.append({"op": "validate_lead", "leadOk": h.lead_size is not None, "ret": e["ret"], "es": es, "pos": e.get("off", -1)})
+            out.append({"op": "validate_lead", "leadOk": lead_ok, "ret": e["ret"], "es": es, "pos": e.get("off", -1)})
         elif s["op"] == "read_lead":
-            out.append({"op": "read_lead", "leadOk": h.lead_size is not None, "ret": e["ret"], "es": es})
+            out.append({"op": "read_lead", "leadOk": lead_ok, "ret": e["ret"], "es": es})
         elif s["op"] == "read_header":
-            out.append({"op": "read_header", "sealed": bool(h.sealed and sealed), "wf": bool(h.ok and h.supported), "ret": e["ret"], "es": es})
+            out.append({"op": "read_header", "sealed": bool(h.sealed and sealed and buf is not None and len(buf) >= (h.hdr_total or 0)), "wf": bool(h.ok and h.supported), "ret": e["ret"], "es": es})
     return out
 
 
@@ -161,28 +171,36 @@ def run(tier):
     hists = common.tlc_printed_json(r, "BEH")
     if len(hists) < 500:
         raise Broken("MC_Pin printed only %d histories" % len(hists))
-    cases = []     # (cid, path, buf, sealed, steps)
+    cases = []     # (cid, path, buf, sealed, steps, refbuf)
     n = 0
     for hi, hist in enumerate(hists):
-        for fi, (path, buf, sealed) in enumerate(files):
+        for fi, (path, buf, sealed, refbuf) in enumerate(files):
             if tier == "quick" and fi != hi % len(files):
-                continue                      # quick: each history on one file (rotating); thorough: on all five
+                continue                      # quick: each history on one file (rotating); thorough: on all of them
             expand = (tier == "thorough" and hi % 5 == fi) or (tier == "quick" and hi % 6 == 0)
-            vs = concretise(hist, path, buf, sealed, rnd, expand)
+            vs = concretise(hist, path, buf, sealed, rnd, expand, refbuf)
             if len(vs) > 48:
                 vs = rnd.sample(vs, 48)
             for steps in vs:
-                cases.append(("h%d-f%d-%d" % (hi, fi, n), path, buf, sealed, steps)); n += 1
+                cases.append(("h%d-f%d-%d" % (hi, fi, n), path, buf, sealed, steps, refbuf)); n += 1
+    # every truncated candidate under fully matching pins (type, digest, total length of the complete file) and under none
+    for fi, (path, buf, sealed, refbuf) in enumerate(files):
+        if refbuf is buf:
+            continue
+        hf = ref.parse_header(refbuf)
+        for pins in ([{"op": "settype", "type": hf.hash_type}, {"op": "setdigest", "str": hf.header_digest.hex().encode()}, {"op": "setlen", "len": hf.hdr_total}], [], [{"op": "setlen", "len": hf.hdr_total}]):
+            for tail in (["validate_lead", "read_lead"], ["read_lead"], ["validate_lead", "validate_lead", "read_lead", "read_header"]):
+                cases.append(("cut%d-%d" % (fi, n), path, buf, sealed, pins + [{"op": o} for o in tail], refbuf)); n += 1
     # the 256-value sweep at four position classes of the digest string
-    for fi, (path, buf, sealed) in enumerate(files[:4]):
+    for fi, (path, buf, sealed, _rb) in enumerate(files[:4]):
         h = ref.parse_header(buf); good = h.header_digest.hex().encode()
         for pos in (0, 1, len(good) - 2, len(good) - 1):
             for c in range(256):
                 s = good[:pos] + bytes([c]) + good[pos + 1:]
                 steps = [{"op": "settype", "type": h.hash_type}, {"op": "setdigest", "str": s}, {"op": "validate_lead"}, {"op": "read_lead"}, {"op": "read_header"}]
-                cases.append(("sw%d-%d-%d" % (fi, pos, c), path, buf, sealed, steps))
+                cases.append(("sw%d-%d-%d" % (fi, pos, c), path, buf, sealed, steps, buf))
     scripts = {}
-    for (cid, path, buf, sealed, steps) in cases:
+    for (cid, path, buf, sealed, steps, refbuf) in cases:
         scripts[cid] = script_and_template(cid, path, steps)
     ids = list(scripts)
     nproc = 8
@@ -190,12 +208,12 @@ def run(tier):
     evs = [e for part in common.run_driver_parallel(parts, "plain") for e in part]
     bycase = common.by_case(evs)
     trace = []; owner = []
-    for (cid, path, buf, sealed, steps) in cases:
+    for (cid, path, buf, sealed, steps, refbuf) in cases:
         ce = bycase.get(cid, [])
         if any(e["op"] in ("Crash", "Hang") for e in ce):
             t = [{"op": "reset"}, {"op": "Crash", "case": cid}]
         else:
-            t = enrich(ce, steps, buf, sealed)
+            t = enrich(ce, steps, buf, sealed, refbuf)
         ck.case(json.dumps([{k: (v.hex() if isinstance(v, bytes) else v) for k, v in s.items()} for s in steps]) + path)
         for x in t:
             trace.append(x); owner.append(cid)
